@@ -636,3 +636,29 @@ mod tests {
         validate_blob(share_signer_forbidden, with_signer, app_unknown).unwrap_err();
     }
 }
+
+/// Verification hooks: compiled only with `--cfg eigerco_lumina_verif` (see /verif).
+#[cfg(eigerco_lumina_verif)]
+#[doc(hidden)]
+pub mod verif {
+    /// `subtree_width`
+    pub fn subtree_width(share_count: u64, subtree_root_threshold: u64) -> u64 {
+        super::subtree_width(share_count, subtree_root_threshold)
+    }
+    /// `merkle_mountain_range_sizes`
+    pub fn merkle_mountain_range_sizes(total_size: u64, max_tree_size: u64) -> Vec<u64> {
+        super::merkle_mountain_range_sizes(total_size, max_tree_size)
+    }
+    /// `blob_min_square_size`
+    pub fn blob_min_square_size(share_count: u64) -> u64 {
+        super::blob_min_square_size(share_count)
+    }
+    /// `round_up_to_power_of_2`
+    pub fn round_up_to_power_of_2(x: u64) -> Option<u64> {
+        super::round_up_to_power_of_2(x)
+    }
+    /// `round_down_to_power_of_2`
+    pub fn round_down_to_power_of_2(x: std::num::NonZeroU64) -> Option<u64> {
+        super::round_down_to_power_of_2(x)
+    }
+}
